@@ -407,26 +407,10 @@ where
         canon_map_b::<V>(b)
     }
     fn reads(s: &Self::S, d: &Dims) -> Value {
-        let n = d.n;
-        let mut get = vec![];
-        for k in 1..=d.k {
-            let g = s.get(&(k as u8));
-            get.push(json!({
-                "val": match g.val { Some(x) => V::shown(&x, d), None => Value::Null },
-                "add": clock_json(&g.add_clock, n), "rm": clock_json(&g.rm_clock, n)}));
-        }
-        let keys: Vec<Value> = s.keys().map(|c| json!([*c.val as u64, clock_json(&c.add_clock, n), clock_json(&c.rm_clock, n)])).collect();
-        let values: Vec<Value> = s.values().map(|c| json!([V::shown(c.val, d), clock_json(&c.add_clock, n), clock_json(&c.rm_clock, n)])).collect();
-        let iter: Vec<Value> = s.iter().map(|c| json!([*c.val.0 as u64, V::shown(c.val.1, d), clock_json(&c.add_clock, n), clock_json(&c.rm_clock, n)])).collect();
-        let l = s.len();
-        let e = s.is_empty();
-        let rc = s.read_ctx();
-        json!({
-            "get": get, "keys": keys, "values": values, "iter": iter,
-            "len": {"val": l.val, "add": clock_json(&l.add_clock, n), "rm": clock_json(&l.rm_clock, n)},
-            "is_empty": {"val": e.val, "add": clock_json(&e.add_clock, n), "rm": clock_json(&e.rm_clock, n)},
-            "read_ctx": {"add": clock_json(&rc.add_clock, n), "rm": clock_json(&rc.rm_clock, n)},
-        })
+        Self::reads_full_or_light(s, d, true)
+    }
+    fn reads_light(s: &Self::S, d: &Dims) -> Value {
+        Self::reads_full_or_light(s, d, false)
     }
     fn exp_reads(a: &Value, d: &Dims) -> Value {
         let sem = <Map<u8, V, u8> as MVal>::canon_sem(&a["sem"], d);
@@ -503,7 +487,7 @@ where
         if path.starts_with("iter") {
             return path.contains("][3]") || path.contains("][4]");
         }
-        path.contains(".add") || path.contains(".rm") || path.starts_with("read_ctx")
+        path.contains(".add") || path.contains(".rm") || path.starts_with("read_ctx") || path.starts_with("derived")
     }
     fn sigs(sys: &Sys<Self>) -> Vec<String> {
         let mut v = vec![];
@@ -539,11 +523,19 @@ fn reads_from(sem: &Value, clock: &Value, wit: &[Value], d: &Dims) -> Value {
             iter.push(json!([k as u64, ents[k - 1], clock, rm]));
         }
     }
+    let n = clock.as_array().unwrap().len();
+    let derived: Vec<Value> = (1..=n).map(|a| {
+        let e = crate::eng_orswot::exp_derived(clock, a);
+        let per_key: Vec<Value> = (1..=d.k).map(|_| e.clone()).collect();
+        json!({"read_ctx": e, "len": e, "get": per_key})
+    }).collect();
+    let rmd: Vec<Value> = (1..=d.k).map(|k| if !ents[k - 1].is_null() { wit[k - 1].clone() } else { json!(vec![0u64; d.n]) }).collect();
     json!({
         "get": get, "keys": keys, "values": values, "iter": iter,
         "len": {"val": len, "add": clock, "rm": clock},
         "is_empty": {"val": len == 0, "add": clock, "rm": clock},
         "read_ctx": {"add": clock, "rm": clock},
+        "derived_add": derived, "derived_rm": rmd,
     })
 }
 
@@ -555,5 +547,51 @@ where
 {
     fn random_cmd(s: &Self::S, _r: usize, rng: &mut rand::rngs::StdRng, d: &Dims) -> Option<Value> {
         Some(<Map<u8, V, u8> as MVal>::random_cmd(s, rng, d))
+    }
+}
+
+impl<V: MVal> MapEng<V>
+where
+    <V as CmRDT>::Op: Clone + Debug + Serialize + DeserializeOwned + PartialEq,
+    <V as CmRDT>::Validation: Debug,
+    <V as CvRDT>::Validation: Debug,
+{
+    fn reads_full_or_light(s: &Map<u8, V, u8>, d: &Dims, full: bool) -> Value {
+        let n = d.n;
+        let mut get = vec![];
+        for k in 1..=d.k {
+            let g = s.get(&(k as u8));
+            get.push(json!({
+                "val": match g.val { Some(x) => V::shown(&x, d), None => Value::Null },
+                "add": clock_json(&g.add_clock, n), "rm": clock_json(&g.rm_clock, n)}));
+        }
+        let keys: Vec<Value> = s.keys().map(|c| json!([*c.val as u64, clock_json(&c.add_clock, n), clock_json(&c.rm_clock, n)])).collect();
+        let values: Vec<Value> = s.values().map(|c| json!([V::shown(c.val, d), clock_json(&c.add_clock, n), clock_json(&c.rm_clock, n)])).collect();
+        let iter: Vec<Value> = s.iter().map(|c| json!([*c.val.0 as u64, V::shown(c.val.1, d), clock_json(&c.add_clock, n), clock_json(&c.rm_clock, n)])).collect();
+        let l = s.len();
+        let e = s.is_empty();
+        let rc = s.read_ctx();
+        // the contexts derived from the reads (ctx.rs), for every actor, from a whole-map read and from per-key reads
+        let mut derived = vec![];
+        for a in 1..=(if full { n } else { 0 }) {
+            let actor = a as u8;
+            let c1 = s.read_ctx().derive_add_ctx(actor);
+            let c2 = s.len().derive_add_ctx(actor);
+            let per_key: Vec<Value> = (1..=d.k).map(|k| { let c = s.get(&(k as u8)).derive_add_ctx(actor); json!([c.dot.actor, c.dot.counter, clock_json(&c.clock, n)]) }).collect();
+            derived.push(json!({"read_ctx": [c1.dot.actor, c1.dot.counter, clock_json(&c1.clock, n)],
+                                "len": [c2.dot.actor, c2.dot.counter, clock_json(&c2.clock, n)], "get": per_key}));
+        }
+        let rmd: Vec<Value> = (1..=d.k).map(|k| clock_json(&s.get(&(k as u8)).derive_rm_ctx().clock, n)).collect();
+        let mut out = json!({"derived_add": derived, "derived_rm": rmd});
+        let base = json!({
+            "get": get, "keys": keys, "values": values, "iter": iter,
+            "len": {"val": l.val, "add": clock_json(&l.add_clock, n), "rm": clock_json(&l.rm_clock, n)},
+            "is_empty": {"val": e.val, "add": clock_json(&e.add_clock, n), "rm": clock_json(&e.rm_clock, n)},
+            "read_ctx": {"add": clock_json(&rc.add_clock, n), "rm": clock_json(&rc.rm_clock, n)},
+        });
+        for (k, v) in base.as_object().unwrap() {
+            out[k] = v.clone();
+        }
+        out
     }
 }
